@@ -356,6 +356,13 @@ impl Sim {
         }
     }
 
+    /// What the server's visibility query reports for `e` and client `c` (None: no such client / entity).
+    pub fn is_visible(&self, c: &str, e: &str) -> Option<bool> {
+        let ci = self.ci(c);
+        let (Some(ce), Some(se)) = (self.clients[ci].entity, self.server_entity(e)) else { return None };
+        self.server.world().get::<ClientVisibility>(ce).map(|vis| vis.is_visible(se))
+    }
+
     pub fn map_prespawned(&mut self, c: &str, e: &str, p: &str) -> bool {
         let ci = self.ci(c);
         let (Some(ce), Some(se)) = (self.clients[ci].entity, self.alive(e)) else { return false };
